@@ -381,14 +381,18 @@ class CollectorV:
 
     def __init__(self):
         self.id = next(CollectorV._ids)
-        self.retired: List[Tuple[Ptr, Any]] = []
+        self.retired: List[list] = []        # [ptr, reclaimer, set of guard ids that were active when it was retired]
         self.active_guards = 0
+        self.active: set = set()
 
 
 class GuardV:
+    _ids = itertools.count(1)
+
     def __init__(self, collector: Optional[CollectorV]):
         self.collector = collector     # None = unprotected
         self.dropped = False
+        self.id = next(GuardV._ids)
 
 
 # ---------------------------------------------------------------------------------------------
@@ -429,6 +433,8 @@ class Interp:
         self.consts: Dict[str, Any] = {}
         self.panics: List[str] = []
         self.stack: List[str] = []
+        self.sched = None      # set by fv.conc for multi-threaded exploration
+        self.lt = None
 
     # ---- scalars ---------------------------------------------------------------------
     def sc(self, v, ty):
@@ -1111,6 +1117,8 @@ class Interp:
         if isinstance(v, MutexGuardV):
             if not v.released:
                 v.released = True
+                if self.sched is not None:
+                    self.sched.point(self.lt, 'unlock bin')
                 m = self.load_ptr(v.mutex_ptr)
                 m.locked = False
                 if v.mutex_ptr in self.held_locks:
